@@ -7,12 +7,13 @@ pat=${2:-m[67]}
 one() {
   name=$1; own=${name%%-*}
   declare -A extra
-  extra[C04-m6]="C11"; extra[C04-m7]="C11"; extra[C11-m6]="C10"; extra[C20-m7]="C17"; extra[C16-m7]="C15"; extra[C07-m6]="C05"; extra[C10-m6]="C11"; extra[C02-m6]="C18 C13"; extra[C02-m7]="C03"; extra[C14-m6]="C15"
+  extra[C04-m6]="C11"; extra[C04-m7]="C11"; extra[C11-m6]="C10"; extra[C20-m7]="C17"; extra[C16-m7]="C15"; extra[C07-m6]="C05"; extra[C10-m6]="C11"; extra[C02-m6]="C18 C13"; extra[C02-m7]="C03"; extra[C14-m6]="C15"; extra[C07-m3]="C05"; extra[C07-m5]="C05"; extra[C20-m3]="C17"; extra[C13-m3]="C18"; extra[C04-m2]="C11"; extra[C04-m5]="C11"; extra[C05-m2]="C11"
   for prop in $own ${extra[$name]}; do
     log=/var/tmp/mm3-$name-$prop.log
     timeout 2400 tools/mutant_run.sh $name $prop > $log 2>&1
     rc=$(grep -o "exit=[0-9]*" $log | tail -1 | cut -d= -f2)
-    det=$(grep -m1 "harness=" $log | sed 's/^ *//' | cut -c1-220)
+    det=$(grep -m1 "harness=.*native:" $log | sed 's/^ *//' | cut -c1-220)
+    [ -z "$det" ] && det=$(grep -m1 "harness=" $log | sed 's/^ *//' | cut -c1-220)
     [ -z "$det" ] && det=$(grep -m1 -E "INCONCLUSIVE|SPURIOUS|PATCH DOES NOT APPLY" $log | cut -c1-160)
     echo -e "$name\t$prop\t$rc\t$det"
   done
